@@ -18,6 +18,16 @@
             (property); wrong magic, short sections, truncated / corrupted deflate streams, unknown compression types,
             non-zero debuglink padding, truncated links, missing linked files, random byte flips: real code vs model.
   has     : every combination of presence of .debug_info / .zdebug_info / .eh_frame / others x strict.
+  reloc   : relocatable objects.  A synthesized payload for every listed machine x class x byte order gets relocation
+            sections (.rel/.rela, entries and symbol values drawn as in C08: mostly valid, some rejected, some outside the
+            domain) against 1-3 of its debug sections; the tables, the symbol table and the RELOCATED logical content come
+            from the Lean SPEC side (C08's encoders and `applyStd`).  The same content is stored plain, SHF_COMPRESSED
+            (all / subset, any level) and as .zdebug (+ .rel[a].zdebug_*), and read with relocate_dwarf_sections on/off.
+            property   : view == relocated content (on) / content as written (off), identically for the three storages;
+                         a rejected relocation => ELFRelocationError in all three.
+            correspondence : as in `wrap`.
+            relobj: shipped ET_REL objects re-assembled section by section with their debug sections compressed in each
+            format (their own relocation / symbol sections kept): view == the library's view of the original object.
 """
 import io, os, sys, zlib, binascii, struct, hashlib, json, glob
 from common import canon, hx, rnd_uint, rnd_bytes, classify_exception, uleb, sleb, REPO
@@ -27,13 +37,19 @@ RULE = ('wrap: payloads = debug sections of every shipped test binary that has a
         'plus synthesized DWARF (CU + DIEs + line program + .debug_frame) for ELF32/64 x LE/BE with section sizes drawn around '
         'the 4096-byte chunk size; each payload under plain, gABI (levels 0-9, all sections and random subsets), .zdebug (levels), '
         'debuglink (ok / bad crc / no loader / follow_links=False, target itself plain/gABI/.zdebug), altlink and .debug_sup '
-        '(with / without loader). bad: declared sizes {n-1, n+1, 0, 2n, random} and container corruptions. has: all 2^4 presence '
-        'combinations x strict. Non-trivial = distinct file images; every case reads at least one section through the container code.')
-ASSUMPTIONS = ['zlib.decompressobj().decompress(data, max_length) and binascii.crc32 are external: their answers are recorded from '
-               'the real modules during the run and handed to the model as tables (an answer the real code never asked for is a '
-               'correspondence failure)',
+        '(with / without loader), and the links composed (debug link -> debug file plain/gABI/.zdebug -> its supplementary link -> '
+        'supplementary file plain/gABI/.zdebug). bad: declared sizes {n-1, n+1, 0, 2n, random} and container corruptions. has: all '
+        '2^4 presence combinations x strict. reloc: synthesized relocatable objects for every listed machine (REL/RELA, both classes '
+        'and byte orders, 1-3 targeted debug sections, valid / rejected / out-of-domain entries) stored plain, gABI (all / subset) and '
+        '.zdebug, relocate on/off; shipped ET_REL objects re-assembled with their debug sections compressed in each format. '
+        'Non-trivial = distinct file images; every case reads at least one section through the container code.')
+ASSUMPTIONS = ['zlib.decompressobj().decompress(data, max_length) is external: its answers are recorded from the real module during '
+               'the run and handed to the model as a table (an answer the real code never asked for is a correspondence failure)',
                'zlib streaming: feeding 4096-byte chunks and flush() gives the bytes / error of one unlimited decompress call',
-               'binascii.crc32 over 4096-byte chunks == crc32 of the whole file',
+               'zlib round trip (ZlibOk): decompress(compress(x, level), k) == x (x[:k] for k > 0) - checked on every generated stream',
+               'binascii.crc32 is the CRC-32 of the GDB manual (the model computes it from Spec/ContainerCrc.lean, folded over '
+               '4096-byte chunks as _file_crc32 does) and satisfies the streaming law crc32(a+b, i) == crc32(b, crc32(a, i)) - the '
+               'law is checked on every recorded _file_crc32 conversation, the value by every followed debug link',
                'stream_loader is a mapping path -> bytes; a missing path raises KeyError',
                'io.BytesIO read/seek/tell semantics; section names are valid UTF-8']
 FINDINGS = {}
@@ -101,6 +117,45 @@ class ZRec:
         return getattr(zlib, n)
 
 
+class CRec:
+    """binascii stand-in for dwarf_util: records the crc32 conversation of every _file_crc32 run (chunk sizes, chaining)"""
+
+    def __init__(self):
+        self.runs = []          # [[(chunk bytes, init, out), ...]]
+
+    def crc32(self, data, value=0):
+        out = binascii.crc32(data, value)
+        if value == 0 or not self.runs:
+            self.runs.append([])
+        self.runs[-1].append((bytes(data), value, out))
+        return out
+
+    def __getattr__(self, n):
+        return getattr(binascii, n)
+
+
+CRC_STATS = {}
+
+
+def check_crc_streaming(runs):
+    """ASSUMPTION check (CrcStreaming of the theorems): crc32(a + b, init) == crc32(b, crc32(a, init)) on every recorded
+    chain, i.e. the chained value is the one-shot CRC of the concatenation; also notes the chunking that was seen"""
+    for chain in runs:
+        whole, cur = b'', 0
+        for d, init, out in chain:
+            if init != cur:
+                return          # not a chain started at 0 by _file_crc32 (someone else called crc32): nothing to check
+            whole += d
+            cur = out
+            if binascii.crc32(whole) != out:
+                raise AssertionError('crc32 streaming assumption violated after %d bytes' % len(whole))
+        k = 'crc:chunks:%s' % ('1' if len(chain) == 1 else '2-4' if len(chain) <= 4 else '5+')
+        CRC_STATS[k] = CRC_STATS.get(k, 0) + 1
+        sizes = set(len(d) for d, _, _ in chain[:-1])
+        k2 = 'crc:chunksize:%s' % ('-' if not sizes else ','.join(str(x) for x in sorted(sizes)))
+        CRC_STATS[k2] = CRC_STATS.get(k2, 0) + 1
+
+
 def classify(e):
     if isinstance(e, zlib.error):
         return 'zlibError'
@@ -129,15 +184,17 @@ def open_impl(main, files, has_loader):
 
 def with_zrec(fn):
     """run fn() with the recording zlib installed in the two modules that use zlib"""
-    import elftools.elf.sections as S, elftools.elf.elffile as E
-    rec = ZRec()
-    o1, o2 = S.zlib, E.zlib
+    import elftools.elf.sections as S, elftools.elf.elffile as E, elftools.dwarf.dwarf_util as DU
+    rec, crec = ZRec(), CRec()
+    o1, o2, o3 = S.zlib, E.zlib, DU.binascii
     S.zlib = E.zlib = rec
+    DU.binascii = crec
     try:
         res = fn()
     finally:
-        S.zlib, E.zlib = o1, o2
+        S.zlib, E.zlib, DU.binascii = o1, o2, o3
     check_streaming(rec.table)
+    check_crc_streaming(crec.runs)
     return res, rec.table
 
 
@@ -206,8 +263,8 @@ def run_real(main, files, has_loader, relocate, follow, want_dump=False):
 
 
 def model_request(main, files, has_loader, relocate, follow, ztable):
-    return {'p': 'C11', 'k': 'view', 'hex': hx(main), 'crc': binascii.crc32(main),
-            'files': [[hx(n), hx(c), binascii.crc32(c)] for n, c in files.items()],
+    return {'p': 'C11', 'k': 'view', 'hex': hx(main),
+            'files': [[hx(n), hx(c)] for n, c in files.items()],
             'zlib': [[hx(d), k, None if o is None else hx(o)] for (d, k), o in ztable.items()],
             'has_loader': has_loader, 'relocate': relocate, 'follow': follow}
 
@@ -522,6 +579,76 @@ class Builder:
             img.add_section(name, EB.SHT_PROGBITS, data=body, addralign=4)
         return img.build()
 
+    def stored_sections(self, p, mode, level, subset=None):
+        """[(name in the file, stored bytes, sh_flags, addralign, addr, logical name)] for the payload's sections under
+        `mode` in plain / gabi / zdebug (`subset`: indices that are compressed under gabi; zdebug frames every .debug_*)"""
+        reqs, idx = [], []
+        for i, (name, body, addr, al) in enumerate(p.sections):
+            if mode == 'gabi' and name != '.eh_frame' and (subset is None or i in subset):
+                deflated = zlib.compress(body, level)
+                check_roundtrip(body, deflated)
+                reqs.append({'p': 'C11', 'k': 'wrap', 'what': 'gabi', 'cls': p.cls, 'le': p.le, 'size': len(body), 'align': al,
+                             'deflated': hx(deflated)})
+                idx.append(i)
+            elif mode == 'zdebug' and name.startswith('.debug_'):
+                deflated = zlib.compress(body, level)
+                check_roundtrip(body, deflated)
+                reqs.append({'p': 'C11', 'k': 'wrap', 'what': 'zdebug', 'size': len(body), 'name': hx(name.encode()),
+                             'deflated': hx(deflated)})
+                idx.append(i)
+        wrapped = dict(zip(idx, lean_wrap(self.ctx, reqs))) if reqs else {}
+        out = []
+        for i, (name, body, addr, al) in enumerate(p.sections):
+            if i in wrapped and mode == 'gabi':
+                out.append((name, bytes.fromhex(wrapped[i]['bytes']), EB.SHF_COMPRESSED, 8 if p.cls == 64 else 4, addr, name))
+            elif i in wrapped:
+                out.append((bytes.fromhex(wrapped[i]['name']).decode(), bytes.fromhex(wrapped[i]['bytes']), 0, 1, addr, name))
+            else:
+                out.append((name, body, 2 if name == '.eh_frame' else 0, al, addr, name))
+        return out
+
+    def reloc_image(self, p, mode, level, rel, subset=None, decoy=False, rel_first=False, sym_first=True):
+        """a relocatable object: the payload stored under `mode`, a symbol table, and for every target of `rel['targets']`
+        (logical section name -> relocation table bytes) a `.rel`/`.rela` section named after the section AS STORED"""
+        stored = self.stored_sections(p, mode, level, subset)
+        img = self.image(p)
+        rela = rel['rela']
+        pfx, sht = ('.rela', EB.SHT_RELA) if rela else ('.rel', EB.SHT_REL)
+        itxt = img.add_section('.text', EB.SHT_PROGBITS, data=b'\x90' * 16, flags=6, addr=0, addralign=4)
+        # section indices are known up front: sections are appended in this order
+        order = []
+        if sym_first:
+            order += ['strtab', 'symtab']
+        if decoy:
+            order.append('decoy')
+        if rel_first:
+            order += [('rel', n) for n in rel['targets']]
+        order += [('sec', i) for i in range(len(stored))]
+        if not rel_first:
+            order += [('rel', n) for n in rel['targets']]
+        if not sym_first:
+            order += ['strtab', 'symtab']
+        index = {k: 2 + j for j, k in enumerate(order)}
+        stored_name = {logical: sname for sname, _, _, _, _, logical in stored}
+        sec_index = {logical: index[('sec', i)] for i, (_, _, _, _, _, logical) in enumerate(stored)}
+        for k in order:
+            if k == 'strtab':
+                got = img.add_section('.strtab', EB.SHT_STRTAB, data=b'\0')
+            elif k == 'symtab':
+                got = img.add_section('.symtab', EB.SHT_SYMTAB, data=rel['symbytes'], link=index['strtab'], entsize=rel['symentsize'],
+                                      addralign=8)
+            elif k == 'decoy':
+                got = img.add_section(pfx + '.text', sht, data=bytes(rel['relentsize']), link=index['symtab'], info=itxt,
+                                      entsize=rel['relentsize'], addralign=8)
+            elif k[0] == 'rel':
+                got = img.add_section(pfx + stored_name[k[1]], sht, data=rel['targets'][k[1]], link=index['symtab'],
+                                      info=sec_index[k[1]], entsize=rel['relentsize'], addralign=8)
+            else:
+                sname, data, flags, al, addr, _ = stored[k[1]]
+                got = img.add_section(sname, EB.SHT_PROGBITS, data=data, addr=addr, addralign=al, flags=flags)
+            assert got == index[k], (got, index[k], k)
+        return img.build()
+
     def debuglink(self, p, filename, crc):
         r = lean_wrap(self.ctx, [{'p': 'C11', 'k': 'wrap', 'what': 'debuglink', 'le': p.le, 'filename': hx(filename), 'crc': crc}])[0]
         return bytes.fromhex(r['bytes'])
@@ -779,6 +906,18 @@ def run_wrap(ctx):
                     via = B.plain(p, strip=True, extra=[('.gnu_debuglink', B.debuglink(p, lname, binascii.crc32(main)))])
                     ev('%s:via-debuglink:%s' % (kind, sname), via, {lname: main, supname: supimg}, has_loader=True, follow=True,
                        expect_view=svx, expect_sup=supsv)
+                    if kind == 'debugsup' and sname == 'plain':
+                        # the whole chain in the legacy format (view_composed_links): stripped file -> debug link -> debug
+                        # file stored as .zdebug_* (its .debug_sup framed and renamed with the rest) -> supplementary file
+                        # stored as .zdebug_* where it can be
+                        pz = Payload(p.label, p.cls, p.le, p.e_machine, p.e_type, p.e_flags, p.sections + [('.debug_sup', extra[1], 0, 1)])
+                        main_z = B.zdebug(pz, rng.randrange(10))
+                        sup_z_ok = not supsv_linky and any(n == '.debug_info' for n, *_ in sup.sections)
+                        supz = B.zdebug(sup, rng.randrange(10)) if sup_z_ok else B.gabi(sup, rng.randrange(10))
+                        via_z = B.plain(p, strip=True, extra=[('.gnu_debuglink', B.debuglink(p, lname, binascii.crc32(main_z)))])
+                        ev('debugsup:via-debuglink:zdebug', via_z, {lname: main_z, supname: supz}, has_loader=True, follow=True,
+                           expect_view=svx, expect_sup=supsv)
+                        ctx.out.count('composed:zdebug-main:%s-sup' % ('zdebug' if sup_z_ok else 'gabi'))
                     ev('%s:noloader' % kind, main, {supname: supimg}, has_loader=False, follow=True, expect_view=svx, expect_sup='absent')
                     ev('%s:nofollow' % kind, main, {supname: supimg}, has_loader=True, follow=False, expect_view=svx, expect_sup='absent')
                 if ctx.tier == 'quick':
@@ -966,6 +1105,245 @@ def run_bad(ctx):
     pend.flush()
 
 
+
+# --------------------------------------------------------------------------- stream: reloc
+EM_NUM = {'x86': 3, 'mips': 8, 'ppc64': 21, 's390': 22, 'arm': 40, 'x64': 62, 'aarch64': 183, 'riscv': 243, 'bpf': 247,
+          'loongarch': 258, 'sparc': 2}
+RELOC_LISTED = ['x86', 'x64', 'arm', 'aarch64', 'mips', 'ppc64', 's390', 'loongarch']
+RELOC_NATURAL_RELA = {'x86': False, 'arm': False, 'x64': True, 'aarch64': True, 'ppc64': True, 's390': True, 'loongarch': True}
+RELOC_TYPES = {'x86': [0, 1, 2], 'x64': [0, 1, 2, 10, 11], 'arm': [2, 2, 2], 'aarch64': [257, 258, 261], 'mips': [0, 2, 18],
+               'ppc64': [1, 26, 38], 's390': [4, 5, 22], 'loongarch': [0, 1, 2, 47, 48, 50, 51, 52, 53, 55, 56, 99, 109]}
+RELOC_TYPE_POOL = [0, 1, 2, 4, 5, 10, 11, 18, 22, 26, 38, 47, 50, 56, 99, 109, 257, 258, 261, 3, 49, 255]
+
+
+def gen_reloc_case(rng, it):
+    """(payload, machine name, rela, {logical section name: [entries]}, symbol values)"""
+    mname = rng.choice(RELOC_LISTED) if rng.random() < 0.94 else rng.choice(['riscv', 'bpf', 'sparc'])
+    if mname == 'mips':
+        rela, cls = rng.random() < 0.5, rng.choice([32, 64])
+    else:
+        rela = RELOC_NATURAL_RELA.get(mname, True)
+        if rng.random() < 0.08:
+            rela = not rela
+        cls = {'x86': 32, 'arm': 32, 'aarch64': 64, 'ppc64': 64, 'x64': 64}.get(mname, rng.choice([32, 64]))
+    le = rng.random() < 0.5
+    q = synth_payload(rng, cls, le, 'reloc-%d' % it)
+    p = Payload('reloc-%d-%s' % (it, mname), cls, le, EM_NUM[mname], EB.ET_REL, 0, q.sections)
+    nsyms = rng.choice([1, 2, 3, 5])
+    syms = [0] + [rnd_uint(rng, cls) for _ in range(nsyms - 1)]
+    cands = [(n, b) for n, b, _, _ in p.sections if n.startswith('.debug_') and len(b) >= 9]
+    rng.shuffle(cands)
+    targets = {}
+    for name, body in cands[:rng.choice([1, 1, 2, 3])]:
+        ents = []
+        for _ in range(rng.choice([0, 1, 1, 2, 3, 6])):
+            t = rng.choice(RELOC_TYPES.get(mname, RELOC_TYPE_POOL)) if rng.random() < 0.93 else rng.choice(RELOC_TYPE_POOL)
+            if cls == 32:
+                t &= 0xff
+            r = rng.random()
+            if r < 0.86:
+                off = rng.randrange(0, len(body) - 7)
+            elif r < 0.975:
+                off = len(body) - rng.choice([8, 8, 8, 8, 4])
+            else:
+                off = rng.choice([len(body), len(body) + 1, rnd_uint(rng, cls)])
+            sym = rng.randrange(0, nsyms) if rng.random() < 0.95 else rng.choice([nsyms, nsyms + 1, 0xffffff])
+            e = {'offset': off, 'sym': sym, 'type': t}
+            if rela:
+                a = rnd_uint(rng, cls - 1)
+                e['addend'] = a if rng.random() < 0.5 else -a
+            if cls == 64 and mname == 'mips' and rng.random() < 0.1:
+                e['type2'], e['type3'], e['ssym'] = rng.choice([0, 1]), rng.choice([0, 0, 7]), rng.choice([0, 0, 3])
+            ents.append(e)
+        targets[name] = ents
+    return p, mname, rela, targets, syms
+
+
+def run_reloc(ctx):
+    rng = ctx.rng('reloc')
+    B = Builder(ctx)
+    pend = Pending(ctx)
+    n = ctx.budget(36, 400)
+    for it in range(n):
+        if ctx.time_left() < 10:
+            ctx.out.notes.append('reloc: time budget reached at case %d' % it)
+            break
+        p, mname, rela, targets, syms = gen_reloc_case(rng, it)
+        by = {name: body for name, body, _, _ in p.sections}
+        reqs = [{'p': 'C11', 'k': 'wrap', 'what': 'reloc', 'le': p.le, 'cls': p.cls, 'machine': p.e_machine, 'rela': rela,
+                 'relocs': ents, 'syms': syms, 'section': hx(by[name])} for name, ents in targets.items()]
+        reps = ctx.driver.ask_many(reqs)
+        for r in reps:
+            if 'fatal' in r or 'relbytes' not in r:
+                raise RuntimeError('driver: %r' % (r,))
+        rel = {'rela': rela, 'symbytes': bytes.fromhex(reps[0]['symbytes']), 'symentsize': reps[0]['symentsize'],
+               'relentsize': reps[0]['relentsize'],
+               'targets': {name: bytes.fromhex(r['relbytes']) for name, r in zip(targets, reps)}}
+        wf = all(r['wf'] for r in reps)
+        rejected = any(r['relocated'] is None for r in reps)
+        # what the property prescribes: relocated logical content (relocate on), content as written (off)
+        sv_off = spec_view(p)
+        sv_on = None
+        if wf and not rejected:
+            q = Payload(p.label, p.cls, p.le, p.e_machine, p.e_type, p.e_flags,
+                        [(name, bytes.fromhex(reps[list(targets).index(name)]['relocated']) if name in targets else body, addr, al)
+                         for name, body, addr, al in p.sections])
+            sv_on = spec_view(q)
+        res = 'notwf' if not wf else 'rejected' if rejected else 'relocated'
+        variants = [('plain', None), ('gabi', None), ('zdebug', None)]
+        if rng.random() < 0.5:
+            variants.append(('gabi', set(i for i in range(len(p.sections)) if rng.random() < 0.5)))
+        for mode, subset in variants:
+            level = rng.randrange(10)
+            main = B.reloc_image(p, mode, level, rel, subset=subset, decoy=rng.random() < 0.4, rel_first=rng.random() < 0.4,
+                                 sym_first=rng.random() < 0.5)
+            tag = mode + ('-subset' if subset is not None else '')
+            for relocate in (True, False):
+                case = file_case('%s/%s:%s' % (p.label, tag, 'on' if relocate else 'off'), main, {}, False, relocate, True)
+                kw = {}
+                if not relocate:
+                    kw['expect_view'] = sv_off
+                elif wf and rejected:
+                    kw['expect_err'] = 'elfRelocError'
+                elif wf:
+                    kw['expect_view'] = sv_on
+                pend.add('reloc', case, main, {}, False, relocate, True, **kw)
+                ctx.out.count('reloc:%s:%s:%s:%s' % (mname, 'rela' if rela else 'rel', tag, res if relocate else 'norelocate'))
+        pend.flush()
+    pend.flush()
+
+
+def raw_sections(data):
+    """[(name, type, flags, addr, offset, size, link, info, addralign, entsize)] and e_shstrndx, straight from the bytes"""
+    cls, le, _, _, _ = raw_header_fields(data)
+    E = '<' if le else '>'
+    if cls == 32:
+        shoff = struct.unpack_from(E + 'I', data, 32)[0]
+        shentsize, shnum, shstrndx = struct.unpack_from(E + 'HHH', data, 46)
+        hs = [struct.unpack_from(E + '10I', data, shoff + i * shentsize) for i in range(shnum)]
+    else:
+        shoff = struct.unpack_from(E + 'Q', data, 40)[0]
+        shentsize, shnum, shstrndx = struct.unpack_from(E + 'HHH', data, 58)
+        hs = [struct.unpack_from(E + 'IIQQQQIIQQ', data, shoff + i * shentsize) for i in range(shnum)]
+    if shnum == 0 or shnum >= 0xff00 or shstrndx >= shnum:
+        return None, None
+    stro = hs[shstrndx][4]
+    out = []
+    for h in hs:
+        end = data.index(b'\0', stro + h[0])
+        out.append((data[stro + h[0]:end].decode('utf-8'),) + tuple(h[1:]))
+    return out, shstrndx
+
+
+def relobj_rewrap(B, data, mode, level, subset_rng=None):
+    """A shipped relocatable object re-assembled section by section (headers copied, section indices remapped for the
+    new position of .shstrtab), with its .debug_* sections stored under `mode`; a relocation section that targets a
+    renamed section is renamed with it.  None when the object cannot be represented under `mode`."""
+    from elftools.elf.elffile import ELFFile
+    cls, le, e_machine, e_type, e_flags = raw_header_fields(data)
+    secs, shstrndx = raw_sections(data)
+    if secs is None:
+        return None
+    ef = ELFFile(io.BytesIO(data))
+    kept = [i for i in range(1, len(secs)) if i != shstrndx]
+    newidx = {0: 0, shstrndx: len(kept) + 1}
+    for j, i in enumerate(kept):
+        newidx[i] = j + 1
+    names = [s[0] for s in secs]
+    if mode == 'zdebug' and '.debug_info' not in names:
+        return None
+    # logical contents of the debug sections that get (re)encoded
+    todo = {}
+    for i in kept:
+        name, ty, flags = secs[i][0], secs[i][1], secs[i][2]
+        if not name.startswith('.debug_') or ty != EB.SHT_PROGBITS:
+            continue
+        if mode == 'gabi' and not (flags & EB.SHF_COMPRESSED) and (subset_rng is None or subset_rng.random() < 0.5):
+            todo[i] = data[secs[i][4]:secs[i][4] + secs[i][5]]
+        elif mode == 'zdebug':
+            todo[i] = ef.get_section(i).data() if flags & EB.SHF_COMPRESSED else data[secs[i][4]:secs[i][4] + secs[i][5]]
+    reqs = []
+    for i, body in todo.items():
+        deflated = zlib.compress(body, level)
+        check_roundtrip(body, deflated)
+        if mode == 'gabi':
+            reqs.append({'p': 'C11', 'k': 'wrap', 'what': 'gabi', 'cls': cls, 'le': le, 'size': len(body), 'align': secs[i][8],
+                         'deflated': hx(deflated)})
+        else:
+            reqs.append({'p': 'C11', 'k': 'wrap', 'what': 'zdebug', 'size': len(body), 'name': hx(secs[i][0].encode()),
+                         'deflated': hx(deflated)})
+    wrapped = dict(zip(todo, lean_wrap(B.ctx, reqs))) if reqs else {}
+    img = EB.ElfImage(cls=cls, le=le, e_type=e_type, e_machine=e_machine, e_flags=e_flags)
+    for i in kept:
+        name, ty, flags, addr, off, size, link, info, al, entsize = secs[i]
+        body = b'' if ty == EB.SHT_NOBITS else data[off:off + size]
+        if i in wrapped:
+            body = bytes.fromhex(wrapped[i]['bytes'])
+            if mode == 'gabi':
+                flags |= EB.SHF_COMPRESSED
+                al = 8 if cls == 64 else 4
+            else:
+                name = bytes.fromhex(wrapped[i]['name']).decode()
+                flags &= ~EB.SHF_COMPRESSED
+        elif mode == 'zdebug' and ty in (EB.SHT_REL, EB.SHT_RELA):
+            for pfx in ('.rela', '.rel'):
+                if name.startswith(pfx + '.debug_'):
+                    name = pfx + '.z' + name[len(pfx) + 1:]
+                    break
+        if ty in (EB.SHT_REL, EB.SHT_RELA) or flags & 0x40:
+            info = newidx.get(info, info)
+        got = img.add_section(name, ty, data=body, flags=flags, addr=addr, link=newidx.get(link, link), info=info,
+                              addralign=al, entsize=entsize, size=size if ty == EB.SHT_NOBITS else None)
+        assert got == newidx[i]
+    return img.build()
+
+
+def run_relobj(ctx):
+    """shipped ET_REL objects with relocations against their debug sections, re-stored under every encoding"""
+    from elftools.elf.elffile import ELFFile
+    rng = ctx.rng('relobj')
+    B = Builder(ctx)
+    pend = Pending(ctx)
+    limit = ctx.budget(16_000, 400_000)
+    for path in corpus_paths():
+        if ctx.time_left() < 10:
+            ctx.out.notes.append('relobj: time budget reached')
+            break
+        if os.path.getsize(path) > limit:
+            continue
+        data = open(path, 'rb').read()
+        if data[:4] != b'\x7fELF':
+            continue
+        ref = {}
+        try:
+            if raw_header_fields(data)[3] != EB.ET_REL:
+                continue
+            secs, _ = raw_sections(data)
+            if secs is None or not any(s[1] in (EB.SHT_REL, EB.SHT_RELA) and '.debug_' in s[0] for s in secs):
+                continue
+            for relocate in (True, False):
+                di = ELFFile(io.BytesIO(data)).get_dwarf_info(relocate_dwarf_sections=relocate, follow_links=False)
+                ref[relocate] = view_of(info_json(di))
+        except Exception:       # noqa: BLE001
+            continue            # objects the library itself cannot read are the corpus stream's business
+        label = os.path.basename(path)
+        modes = [('plain', None), ('gabi', None), ('gabi', rng), ('zdebug', None)]
+        if ctx.tier == 'quick' and not ctx.search:
+            # the identity re-assembly (a check of the re-assembler more than of the reader) on a third of the objects,
+            # one of the two gABI variants
+            modes = ([('plain', None)] if rng.random() < 0.34 else []) + [rng.choice([('gabi', None), ('gabi', rng)]), ('zdebug', None)]
+        for mode, sub in modes:
+            main = relobj_rewrap(B, data, mode, rng.randrange(10), subset_rng=sub)
+            if main is None:
+                continue
+            tag = mode + ('-subset' if sub is not None else '')
+            for relocate in (True, False):
+                case = file_case('relobj/%s/%s:%s' % (label, tag, 'on' if relocate else 'off'), main, {}, False, relocate, False)
+                pend.add('reloc', case, main, {}, False, relocate, False, expect_view=ref[relocate])
+                ctx.out.count('relobj:%s:%s' % (tag, 'on' if relocate else 'off'))
+        pend.flush()
+    pend.flush()
+
 # --------------------------------------------------------------------------- stream: has
 def run_has(ctx):
     rng = ctx.rng('has')
@@ -992,10 +1370,12 @@ def run_has(ctx):
 
 def run(ctx):
     import time
-    for fn in (run_has, run_bad, run_corpus, run_wrap):
+    for fn in (run_has, run_bad, run_reloc, run_relobj, run_corpus, run_wrap):
         t0 = time.time()
         fn(ctx)
         ctx.out.notes.append('%s: %.1fs' % (fn.__name__, time.time() - t0))
+    for k, v in sorted(CRC_STATS.items()):
+        ctx.out.count(k, v)
 
 
 # --------------------------------------------------------------------------- replay
